@@ -1,7 +1,7 @@
 """C07 — headers commit to the whole state and chain together; contents are provable."""
 from rules.engine import mir, q
 from rules.engine.mir import show
-from rules.engine.q import sig
+from rules.engine.q import sig, force
 
 EXPLANATION = (
     "R1 header field map: each of the 11 initialisers of the Header aggregate built by SealedState::header has exactly its source "
@@ -196,6 +196,27 @@ def r4_key_agreement(ctx):
             r.check(s.startswith("Tree::get") and KEY in s, m + "/decode-src", "decodes %s" % s[:60], "decodes %s" % s, b.where(bi))
 
 
+def r4_absent_reads_none(ctx):
+    """'absent keys proven absent': a key that was never inserted (or was deleted: the empty string) reads as None — and only such a key does.  The length test
+    of the stored bytes is forced to "empty" / "not empty" and the answers are read off."""
+    r = ctx.rule("R4b", "SmtMapping::{get,get_with_proof}: empty stored value ⇔ None; a non-empty one is decoded", positional=False)
+    for m in ("get", "get_with_proof"):
+        b = ctx.body("melstf::smtmapping::SmtMapping::" + m, r)
+        ats = [a for a in q.int_switch_atoms(b) + [(e_, c_, bi_) for e_, c_, bi_ in q.pick_atoms(b, lambda c: c.startswith("Eq(0, ")) if c_.startswith("Eq(0, ")] if "len(Tree::get" in a[1] and a[1].startswith("Eq(0, ")]
+        emp = [(e_, bi_) for bi_, e_ in q.call_exprs(b, "is_empty") if "Tree::get" in sig(e_)]
+        seen_ = set()
+        ats = [a for a in ats if not (a[1] in seen_ or seen_.add(a[1]))]
+        if len(ats) + len(emp) != 1:
+            r.undecided(m + "/absent", "%s: the emptiness test of the stored bytes is not read (%d candidates)" % (m, len(ats) + len(emp)))
+            continue
+        atom = ats[0][0] if ats else emp[0][0]
+        des = [bi for bi, t in q.calls_to(b, "stdcode::deserialize")]
+        f1 = force(b, {atom: 1})
+        f0 = force(b, {atom: 0})
+        r.check(not any(d in f1.reach for d in des), m + "/absent=>none", "an empty stored value is not decoded (the key reads as absent)", "%s decodes the empty string of an absent key (stdcode fails on it: a lookup of an absent key aborts)" % m, b.where(des[0]) if des else None)
+        r.check(bool(des) and all(b_ in f0.reach for b_ in des), m + "/present=>decoded", "a stored value is decoded", "%s does not decode a non-empty stored value: a present key reads as absent" % m, b.where(des[0]) if des else None)
+
+
 def r5_tx_commitment(ctx):
     r = ctx.rule("R5", "transactions_root_hash: both branches range over the whole ordered set; dense tree built from the sorted vector; pre-908 key = hash_nosigs(tx)")
     ADAPT = {}
@@ -350,4 +371,4 @@ def shared(ctx):
     core.import_rules(ctx, [c08.r1_reconstruction_map], "X08")
 
 
-RULES = [r1_header_map, r2_chain_step, r3_network_write_once, r4_key_agreement, r5_tx_commitment, r6_stake_commitment, shared]
+RULES = [r1_header_map, r2_chain_step, r3_network_write_once, r4_key_agreement, r4_absent_reads_none, r5_tx_commitment, r6_stake_commitment, shared]
